@@ -7,6 +7,9 @@ import UVerif.Driver.Text
 import UVerif.Driver.F64
 import UVerif.Driver.DD
 
+import UVerif.Driver.Fast
+import UVerif.Driver.Sqrt
+
 namespace UVerif.Driver
 
 /-- family name ↦ handler. One line per family. -/
@@ -27,6 +30,8 @@ def lookupHandler (fam : String) : Option Handler :=
   | "qd" => some qdHandler
   | "qdc" => some qdcHandler
   | "ddconv" => some ddconvHandler
+  | "fast" => some fastHandler
+  | "sqrt" => some sqrtHandler
   | _ => none
 
 end UVerif.Driver
